@@ -34,6 +34,7 @@ reg("C01", "h_c01")
 reg("C04", "h_c04")
 reg("C05", "h_c05")
 reg("C06", "h_c06")
+reg("C06", "h_c01")
 reg("C12", "h_c12")
 
 # quick / thorough wall-clock budgets per check (seconds); hitting one ends the run with exhaustive:false
